@@ -28,6 +28,10 @@ def alphabet(tier):
         # negative commissions (liquidity rebates) are commissions too
         evs = [('fill', q, p_, c) for q in (2, -2, 5, -5) for p_ in ('10', '12.5') for c in ('-0.4', '0.3')]
         return evs + [('mark', '11')]
+    if tier == 'sameinstant':
+        evs = [('fill', q, p_, c) for q in (2, -2, 5) for p_ in ('10', '12.5') for c in ('0', '1.25')]
+        evs += [('fill', q, p_, '1.25', 'same') for q in (2, -2, -5) for p_ in ('10', '12.5')]
+        return evs + [('mark', '11'), ('mark', '11', 'same'), ('mark', '8.5', 'same')]
     if tier == 'numpy':
         # the same small alphabet with the numbers arriving as NumPy scalars (quantities read from a DataFrame blotter)
         evs = [('fill', q, p_, c, 'np') for q in (2, -2, 5, -5) for p_ in ('10', '12.5') for c in ('0', '1.25')]
@@ -159,6 +163,10 @@ def apply_position(pos, ref, ev, i):
     from qstrader.broker.transaction.transaction import Transaction
     fails = []
     dt = T0 + pd.Timedelta(minutes=i)
+    if ev[-1] == 'same' and pos is not None:
+        # this event carries the SAME timestamp as the one before it (a mark and a fill of one instant, two fills of
+        # one batch): legal, and the last price seen is still the last one in sequence
+        dt = pos.current_dt
     if ev[0] == 'refused':
         # a fill the position refuses (stale timestamp or non-positive price): nothing may stick to the books
         if pos is None:
@@ -428,6 +436,11 @@ def run(tier, res, is_known):
     qevs = alphabet('fractional')
     qitems = [('fractional', (), 0)] + [('fractional', (pre,), 2 if tier == 'quick' else 3) for pre in qevs]
     product(subtree_position, qitems, res, is_known, label='position tree, fractional lots', chunk=1, sample_every=7)
+    if any(not is_known(v) for v in res.violations):
+        return
+    sevs = alphabet('sameinstant')
+    sitems = [('sameinstant', (), 0)] + [('sameinstant', (pre,), 3) for pre in sevs if pre[-1] != 'same']
+    product(subtree_position, sitems, res, is_known, label='position tree, several events at one instant', chunk=1, sample_every=7)
     if any(not is_known(v) for v in res.violations):
         return
     nevs = alphabet('numpy')
